@@ -167,7 +167,20 @@ func raceSolvers(solvers []solverSpec, file string, timeoutS int, seed int) solv
 			cmd.Stderr = &out
 			_ = cmd.Run()
 			text := out.String()
-			first := strings.TrimSpace(strings.SplitN(text, "\n", 2)[0])
+			// skip solver warnings: the answer is the first line that is a check-sat response
+			first := ""
+			for _, ln := range strings.Split(text, "\n") {
+				t := strings.TrimSpace(ln)
+				if t == "sat" || t == "unsat" || t == "unknown" || t == "timeout" || strings.HasPrefix(t, "(error") || strings.Contains(t, "interrupted by timeout") {
+					first = t
+					break
+				}
+			}
+			if first != "" {
+				if i := strings.Index(text, first); i > 0 {
+					text = text[i:]
+				}
+			}
 			ans := "unknown"
 			switch {
 			case first == "unsat":
